@@ -7,6 +7,7 @@ import Grexv.Lemmas.TrieAlphabet
 import Grexv.Lemmas.Pipeline
 import Grexv.Lemmas.HopcroftMinimal2
 import Grexv.Props.C13
+import Grexv.Lemmas.Stages
 import Grexv.Lemmas.EndToEnd
 
 /-!
@@ -230,16 +231,8 @@ theorem from_never_out_of_fuel (cfg : Config) (env : Env) (ws : List Str) :
 theorem from_stages_shape (cfg : Config) (env : Env) (ws : List Str) (st : Stages) (h : regExpFrom cfg env ws = .ok st) :
     st.sorted = sortCases (if cfg.ci then lowerCases env ws else ws) ∧
     st.clusters = graphemeClusters cfg env st.sorted ∧ st.trie = Dfa.trie st.clusters ∧
-    Dfa.minimize st.trie Dfa.pickMin = some st.minimized ∧ st.firstAst = Expr.ofDfa cfg st.minimized := by
-  simp only [regExpFrom] at h
-  generalize (if cfg.ci = true then lowerCases env ws else ws) = ws1 at h ⊢
-  split at h
-  · cases h
-  · rename_i dmin hm
-    repeat' split at h
-    all_goals first
-      | (cases h; exact ⟨rfl, rfl, rfl, hm, rfl⟩)
-      | cases h
+    Dfa.minimize st.trie Dfa.pickMin = some st.minimized ∧ st.firstAst = Expr.ofDfa cfg st.minimized :=
+  Grexv.from_stages_shape cfg env ws st h
 
 /-- **the first candidate of `RegExp::from`, for all inputs without `-r`** whenever the model of `RegExp::from`
 succeeds, the automaton it minimised accepts exactly the non-empty converted test cases and the expression
